@@ -208,3 +208,138 @@ Proof.
   pose proof (req_fold_shift post (filter is_mark pre) [] []) as H1. rewrite app_nil_r in H1. rewrite H1.
   destruct (fold_left req_step post ([], [])) as [r p]. cbn [fst snd]. rewrite <- app_assoc. reflexivity.
 Qed.
+
+(* ---- join_blocks: the directives of block2 follow the ones block1 has at the same place; nothing is lost ---- *)
+Definition dgetl (k : Z) (m : dmap (list directive)) : list directive := match dget k m with Some l => l | None => [] end.
+
+Lemma dgetl_cons k k1 l1 (dm : dmap (list directive)) : dgetl k ((k1, l1) :: dm) = if Z.eqb k1 k then l1 else dgetl k dm.
+Proof. unfold dgetl. cbn [dget]. destruct (Z.eqb k1 k); reflexivity. Qed.
+Lemma dgetl_nil k : dgetl k [] = [].
+Proof. reflexivity. Qed.
+Lemma dgetl_dset_eq k v (m : dmap (list directive)) : dgetl k (dset k v m) = v.
+Proof. unfold dgetl. rewrite dget_dset_eq. reflexivity. Qed.
+Lemma dgetl_dset_ne k k' v (m : dmap (list directive)) : k' <> k -> dgetl k (dset k' v m) = dgetl k m.
+Proof. intros H. unfold dgetl. rewrite dget_dset_ne by exact H. reflexivity. Qed.
+
+Lemma join_cfi_fold size1 : forall (dm old : dmap (list directive)) k,
+  NoDup (map fst dm) ->
+  dgetl k (fold_left (fun acc kv => let k0 := size1 + fst kv in dset k0 (dgetl k0 acc ++ snd kv) acc) dm old) =
+  dgetl k old ++ dgetl (k - size1) dm.
+Proof.
+  induction dm as [|[k1 l1] dm IH]; intros old k Hnd; cbn [fold_left fst snd].
+  - rewrite dgetl_nil, app_nil_r. reflexivity.
+  - inversion Hnd as [|? ? Hn Hd]; subst. rewrite IH by exact Hd. rewrite dgetl_cons.
+    destruct (Z.eqb k1 (k - size1)) eqn:E.
+    + apply Z.eqb_eq in E. replace (size1 + k1) with k by lia. rewrite dgetl_dset_eq.
+      assert (Hno : dgetl (k - size1) dm = []).
+      { unfold dgetl. rewrite dget_none_notin; [reflexivity|]. subst k1. exact Hn. }
+      rewrite Hno, app_nil_r. reflexivity.
+    + apply Z.eqb_neq in E. rewrite dgetl_dset_ne by lia. reflexivity.
+Qed.
+
+Theorem join_cfi_lookup s b1 b2 size1 el k :
+  b1 <> b2 -> NoDup (map fst (cfi s)) -> (forall dm, aget b2 (cfi s) = Some dm -> NoDup (map fst dm)) ->
+  cfi_get (cfi (join_cfi s b1 b2 size1)) el k =
+    if Nat.eqb el b2 then []
+    else if Nat.eqb el b1 then cfi_get (cfi s) b1 k ++ cfi_get (cfi s) b2 (k - size1)
+    else cfi_get (cfi s) el k.
+Proof.
+  intros Hne Hnd Hdm. unfold join_cfi.
+  assert (Hflat : tab_truthy (cfi s) = false -> forall e0 k0, cfi_get (cfi s) e0 k0 = []).
+  { intros Ht e0 k0. unfold cfi_get. destruct (aget e0 (cfi s)) as [dm|] eqn:Ea; [|reflexivity].
+    unfold tab_truthy in Ht. assert (Hin : In (e0, dm) (cfi s)).
+    { clear -Ea. induction (cfi s) as [|[k' v'] t IH]; cbn [aget] in Ea; [discriminate|]. destruct (Nat.eqb k' e0) eqn:E; [inversion Ea; apply Nat.eqb_eq in E; subst; left; reflexivity|right; apply IH, Ea]. }
+    destruct dm as [|p t]; [reflexivity|]. exfalso. rewrite <- not_true_iff_false in Ht. apply Ht. apply existsb_exists. exists (e0, p :: t). split; [exact Hin|reflexivity]. }
+  destruct (tab_truthy (cfi s)) eqn:Et.
+  2:{ rewrite !(Hflat eq_refl). destruct (Nat.eqb el b2); [reflexivity|]. destruct (Nat.eqb el b1); reflexivity. }
+  destruct (aget b2 (cfi s)) as [dm|] eqn:E2.
+  2:{ destruct (Nat.eqb el b2) eqn:Eb; [apply Nat.eqb_eq in Eb; subst; unfold cfi_get; rewrite E2; reflexivity|].
+      destruct (Nat.eqb el b1) eqn:Eb1; [|reflexivity]. apply Nat.eqb_eq in Eb1. subst el.
+      unfold cfi_get at 3. rewrite E2. rewrite app_nil_r. reflexivity. }
+  assert (Hb2 : forall k0, cfi_get (cfi s) b2 k0 = dgetl k0 dm) by (intros k0; unfold cfi_get, dgetl; rewrite E2; reflexivity).
+  destruct dm as [|p0 t0] eqn:Edm.
+  - cbn [cfi set_cfi]. unfold cfi_get at 1. destruct (Nat.eqb el b2) eqn:Eb.
+    + apply Nat.eqb_eq in Eb. subst el. rewrite aget_adel_same by exact Hnd. reflexivity.
+    + apply Nat.eqb_neq in Eb. rewrite aget_adel_other by auto. fold (cfi_get (cfi s) el k).
+      destruct (Nat.eqb el b1) eqn:Eb1; [|reflexivity]. apply Nat.eqb_eq in Eb1. subst el. rewrite Hb2. unfold dgetl. cbn. rewrite app_nil_r. reflexivity.
+  - rewrite <- Edm in *. cbn [cfi set_cfi]. unfold cfi_get at 1.
+    destruct (Nat.eqb el b2) eqn:Eb.
+    + apply Nat.eqb_eq in Eb. subst el. rewrite aget_aset_other by auto. rewrite aget_adel_same by exact Hnd. reflexivity.
+    + apply Nat.eqb_neq in Eb. destruct (Nat.eqb el b1) eqn:Eb1.
+      * apply Nat.eqb_eq in Eb1. subst el. rewrite aget_aset_same.
+        change (dgetl k (fold_left (fun acc kv => let k0 := size1 + fst kv in dset k0 (dgetl k0 acc ++ snd kv) acc) dm
+                                   (match aget b1 (adel b2 (cfi s)) with Some d => d | None => [] end)) = cfi_get (cfi s) b1 k ++ cfi_get (cfi s) b2 (k - size1)).
+        rewrite join_cfi_fold by (apply Hdm; reflexivity). rewrite Hb2. f_equal.
+        rewrite aget_adel_other by auto. unfold cfi_get, dgetl. destruct (aget b1 (cfi s)); reflexivity.
+      * apply Nat.eqb_neq in Eb1. rewrite aget_aset_other by auto. rewrite aget_adel_other by auto. reflexivity.
+Qed.
+
+(* ---- remove_block: the directives that must survive move to the next code block (in front of what it has at its start), else to
+   the end of the previous code block, else they stay on the (emptied) block; everything else of the block's entry goes ---- *)
+Lemma aset_keys_nodup_cfi {V} k (v : V) m : NoDup (map fst m) -> NoDup (map fst (aset k v m)).
+Proof.
+  induction m as [|[k' v'] m IH]; cbn [aset map fst]; intros H; [repeat constructor; intros []|].
+  inversion H as [|? ? Hnin Hnd]; subst. destruct (Nat.eqb k' k) eqn:E; cbn [map fst].
+  - apply Nat.eqb_eq in E. subst. constructor; auto.
+  - constructor; [|apply IH, Hnd]. intros Hin. apply Hnin.
+    clear -Hin E. induction m as [|[k2 v2] m IH]; cbn [aset map fst In] in *.
+    + destruct Hin as [->|[]]. rewrite Nat.eqb_refl in E. discriminate.
+    + destruct (Nat.eqb k2 k) eqn:E2; cbn [map fst In] in *; [apply Nat.eqb_eq in E2; subst; destruct Hin as [->|Hin]; [rewrite Nat.eqb_refl in E; discriminate|right; exact Hin]|].
+      destruct Hin as [->|Hin]; [left; reflexivity|right; apply IH, Hin].
+Qed.
+
+Definition rehome_target (s : st) (prev next_ : option nat) : option (nat * Z * bool) :=   (* element, displacement, prepend? *)
+  match next_ with
+  | Some n => if is_code s n then Some (n, 0, true)
+              else match prev with Some p => if is_code s p then Some (p, bsize (the_blk s p), false) else None | None => None end
+  | None => match prev with Some p => if is_code s p then Some (p, bsize (the_blk s p), false) else None | None => None end
+  end.
+
+Theorem remove_cfi_directives_rehomes s b keep prev next_ el k :
+  tab_truthy (cfi s) = true -> keep <> [] -> NoDup (map fst (cfi s)) ->
+  (forall n, next_ = Some n -> n <> b) -> (forall p, prev = Some p -> p <> b) ->
+  cfi_get (cfi (remove_cfi_directives s b keep prev next_)) el k =
+    match rehome_target s prev next_ with
+    | Some (t, d, front) =>
+        if Nat.eqb el b then []
+        else if Nat.eqb el t && Z.eqb k d then (if front then keep ++ cfi_get (cfi s) t d else cfi_get (cfi s) t d ++ keep)
+        else cfi_get (cfi s) el k
+    | None => if Nat.eqb el b then (if Z.eqb k 0 then keep else []) else cfi_get (cfi s) el k
+    end.
+Proof.
+  intros Ht Hk Hnd Hn Hp. unfold remove_cfi_directives. rewrite Ht. cbn [negb].
+  destruct keep as [|k0 kr]; [contradiction|]. cbv iota. clear Hk. set (keep := k0 :: kr) in *.
+  (* the three shapes of the result *)
+  assert (Afront : forall n, n <> b ->
+            cfi_get (cfi (set_cfi s (adel b (aset n (dset 0 (keep ++ match dget 0 (match aget n (cfi s) with Some d => d | None => [] end) with Some l => l | None => [] end)
+                                                         (match aget n (cfi s) with Some d => d | None => [] end)) (cfi s))))) el k =
+            if Nat.eqb el b then [] else if Nat.eqb el n && Z.eqb k 0 then keep ++ cfi_get (cfi s) n 0 else cfi_get (cfi s) el k).
+  { intros n Hnb. cbn [cfi set_cfi]. unfold cfi_get at 1. destruct (Nat.eqb el b) eqn:Eb.
+    - apply Nat.eqb_eq in Eb. subst el. rewrite aget_adel_same; [reflexivity|]. apply aset_keys_nodup_cfi; exact Hnd.
+    - apply Nat.eqb_neq in Eb. rewrite aget_adel_other by auto. destruct (Nat.eqb el n) eqn:En.
+      + apply Nat.eqb_eq in En. subst el. rewrite aget_aset_same. cbn [andb]. destruct (Z.eqb k 0) eqn:Ez.
+        * apply Z.eqb_eq in Ez. subst k. rewrite dget_dset_eq. unfold cfi_get. destruct (aget n (cfi s)); reflexivity.
+        * apply Z.eqb_neq in Ez. rewrite dget_dset_ne by lia. unfold cfi_get. destruct (aget n (cfi s)); reflexivity.
+      + apply Nat.eqb_neq in En. rewrite aget_aset_other by auto. reflexivity. }
+  assert (Aback : forall p, p <> b ->
+            cfi_get (cfi (set_cfi s (adel b (aset p (dset (bsize (the_blk s p)) (match dget (bsize (the_blk s p)) (match aget p (cfi s) with Some d => d | None => [] end) with Some l => l | None => [] end ++ keep)
+                                                         (match aget p (cfi s) with Some d => d | None => [] end)) (cfi s))))) el k =
+            if Nat.eqb el b then [] else if Nat.eqb el p && Z.eqb k (bsize (the_blk s p)) then cfi_get (cfi s) p (bsize (the_blk s p)) ++ keep else cfi_get (cfi s) el k).
+  { intros p Hpb. cbn [cfi set_cfi]. unfold cfi_get at 1. destruct (Nat.eqb el b) eqn:Eb.
+    - apply Nat.eqb_eq in Eb. subst el. rewrite aget_adel_same; [reflexivity|]. apply aset_keys_nodup_cfi; exact Hnd.
+    - apply Nat.eqb_neq in Eb. rewrite aget_adel_other by auto. destruct (Nat.eqb el p) eqn:En.
+      + apply Nat.eqb_eq in En. subst el. rewrite aget_aset_same. cbn [andb]. destruct (Z.eqb k (bsize (the_blk s p))) eqn:Ez.
+        * apply Z.eqb_eq in Ez. subst k. rewrite dget_dset_eq. unfold cfi_get. destruct (aget p (cfi s)); reflexivity.
+        * apply Z.eqb_neq in Ez. rewrite dget_dset_ne by lia. unfold cfi_get. destruct (aget p (cfi s)); reflexivity.
+      + apply Nat.eqb_neq in En. rewrite aget_aset_other by auto. reflexivity. }
+  assert (Astay : cfi_get (cfi (set_cfi s (aset b [(0, keep)] (cfi s)))) el k =
+                  if Nat.eqb el b then (if Z.eqb k 0 then keep else []) else cfi_get (cfi s) el k).
+  { cbn [cfi set_cfi]. unfold cfi_get at 1. destruct (Nat.eqb el b) eqn:Eb.
+    - apply Nat.eqb_eq in Eb. subst el. rewrite aget_aset_same. cbn [dget]. destruct (Z.eqb 0 k) eqn:E; rewrite Z.eqb_sym, E; reflexivity.
+    - apply Nat.eqb_neq in Eb. rewrite aget_aset_other by auto. reflexivity. }
+  unfold rehome_target.
+  destruct next_ as [n|]; [destruct (is_code s n) eqn:Cn|].
+  - apply Afront, Hn. reflexivity.
+  - destruct prev as [p|]; [destruct (is_code s p) eqn:Cp|]; [apply Aback, Hp; reflexivity|exact Astay|exact Astay].
+  - destruct prev as [p|]; [destruct (is_code s p) eqn:Cp|]; [apply Aback, Hp; reflexivity|exact Astay|exact Astay].
+Qed.
